@@ -1,16 +1,64 @@
 """X03 — extension engine: the public counter API layer above the mapped file
 (CtrApi*.tla).  See spec/README-X03.md."""
-from checks import _x03_conc
+import os
+import threading
+
+from checks import _x03_conc, _x03_life
 
 
 def run(ctx):
     ctx.assumptions += [
-        'concurrent part: goroutines are interleaved at StackCounter.mu, the operations of file.register, the deferred check of rotate1 and the two traversals of invalidateCounters; a per-counter increment (Counter.Add below register), invalidate, refresh and the locked section of rotate1 are one step each (the state-word protocol below is C03)',
-        'every Counter object is used by one goroutine at a time (the StackCounter mutex, or a private plain counter): shared plain counters are C03 (known findings F1, F2)',
-        'munmap is replaced by mprotect(PROT_NONE) in the scheduled runs so that a use after close faults deterministically',
-        'reads at rest are made only when no rotation is pending (a read rotates first); a counter that has no record in the current file may be read as 0 with or without a "not found" error',
+        'concurrent part (CtrApi.tla): goroutines are interleaved at StackCounter.mu, at the operations of file.register, at the deferred check of rotate1 and in the two traversals of invalidateCounters; a per-counter increment (Counter.Add below register), invalidate, refresh and the locked section of rotate1 are one step each (the state-word protocol below them is C03)',
+        'every Counter object is used by one goroutine at a time (under the StackCounter mutex, or a private plain counter); Counter objects shared by goroutines are C03 (its known findings F1, F2 are not re-reported here)',
+        'munmap is replaced by mprotect(PROT_NONE) in the scheduled runs so that a use after close faults deterministically; no file growth occurs in the scheduled scenarios',
+        'free-running (really parallel) runs race the FIRST open only; the weekly rotation happens at a barrier there (a rotation concurrent with an increment in flight can hit C03 F1) - concurrent rotation is covered by the scheduled runs',
+        'reads at rest are made only when no rotation is pending (a read rotates first); a counter that has no record in the current file (never incremented, or not since the rotation) may be read as 0 with or without a "not found" error: the documentation is silent',
+        'the close function is called only after all increments; increments after close are outside the documented contract ("no longer usable") and are not made',
+        'countertest.Open is not mixed with counter.Open / OpenAndRotate in one process (documented as forbidden); the telemetry mode does not change during the life of a process',
+        'stack counters of depth 0..2 with call sites that differ in their first and/or second frame; name encoding itself is C15',
+        'ReadFile vectors: files written by an independent writer; two records that decode to the same name, and a leading ditto mark, are excluded (unspecified)',
     ]
-    ctx.inject('internal/counter')
-    ctx.instrument('internal/counter')
-    _x03_conc.run_conc(ctx)
-    ctx.cov['rule'] = 'a case is one schedule of one scenario family executed on the real code'
+    ctx.inject('internal/counter', 'internal/verifh/x03')
+    only = os.environ.get('X03_ONLY', 'life,free,file,bin,conc').split(',')
+    res = {}
+
+    def bg(name, fn, *a):
+        def w():
+            try:
+                res[name] = fn(*a)
+            except BaseException as e:  # noqa: BLE001
+                res[name] = e
+        t = threading.Thread(target=w)
+        t.start()
+        return t
+    # the TLC side of the concurrent part needs no scratch copy: it runs while the sequential parts
+    # drive the UNINSTRUMENTED code
+    ths = []
+    if 'conc' in only:
+        ths.append(bg('prep', _x03_conc.conc_prepare, ctx))
+    pre = []
+    if 'life' in only:
+        pre.append(bg('life', _x03_life.run_life, ctx))
+    if 'free' in only:
+        pre.append(bg('free', _x03_life.run_free, ctx))
+    if 'file' in only:
+        pre.append(bg('file', _x03_life.run_file, ctx))
+    if 'bin' in only:
+        pre.append(bg('bin', _x03_life.run_bin, ctx))
+    for t in pre:
+        t.join()
+    for n in ('life', 'free', 'file', 'bin'):
+        if isinstance(res.get(n), BaseException):
+            for t in ths:
+                t.join()
+            raise res[n]
+    if 'conc' in only:
+        ctx.instrument('internal/counter')
+        for t in ths:
+            t.join()
+        if isinstance(res.get('prep'), BaseException):
+            raise res['prep']
+        _x03_conc.conc_execute(ctx, res['prep'])
+    ctx.cov['rule'] = ('a case is (a) one schedule of one CtrApi scenario family executed step by step on the real instrumented code, '
+                       '(b) one history of public-API calls replayed in a fresh child process / a real program, (c) one free-running parallel run, '
+                       '(d) one counter file of another process read with ReadFile; states/transitions are those of the exhaustive TLC runs')
